@@ -147,13 +147,21 @@ def lab(ctx, p=2, e=1, n="sym", undef=False):
         anchors = [f[i] ** one for i in range(p)]
     else:
         nn = n
-    ln = HP.labyrinth(cp(M), cp(f), labyrinth_factor=nn)
-    ctx.observe("ln", ln)
+    Ma, fa = cp(M), cp(f)
+    ln = HP.labyrinth(Ma, fa, labyrinth_factor=nn)
+    ctx.observe("ln", ln); ctx.observe("f_after", fa); ctx.observe("M_after", Ma)
+    # the arrays handed in are the ones stored in the cache entry of the point: a rule that overwrites them makes
+    # the next evaluation of the same point differ
+    ctx.prove("labyrinth: fractions argument not modified", ctx.all([ctx.eq(fa[i], f[i]) for i in range(p)]))
+    ctx.prove("labyrinth: mobility argument not modified", ctx.all([ctx.eq(Ma[i, j], M[i, j]) for i in range(p) for j in range(e)]))
     ctx.prove("labyrinth never exceeds upper Wiener", ctx.all([ctx.le(ln[j], wu[j]) for j in range(e)]))
     # through the parameter object (clipping of the factor to [1, 2] is what the setter documents)
     hp = HomogenizationParameters("lab")
     hp.setLabyrinthFactor(nn)
-    l2 = hp.homogenizationFunction(cp(M), cp(f), labyrinth_factor=hp.labyrinthFactor)
+    Mb, fb = cp(M), cp(f)
+    l2 = hp.homogenizationFunction(Mb, fb, labyrinth_factor=hp.labyrinthFactor)
+    ctx.prove("labyrinth through HomogenizationParameters: arguments not modified",
+              ctx.all([ctx.eq(fb[i], f[i]) for i in range(p)] + [ctx.eq(Mb[i, j], M[i, j]) for i in range(p) for j in range(e)]))
     ctx.prove("labyrinth through HomogenizationParameters never exceeds upper Wiener", ctx.all([ctx.le(l2[j], wu[j]) for j in range(e)]))
 
 
@@ -317,7 +325,7 @@ def mk_backend(ctx, therm, stable, log, undef=True):
 
 
 def e2e(ctx, rule="wiener upper", mode="predefined", arg="BETA", db=3, stable=("BETA", "ALPHA"), elements=("NI", "AL"),
-        cache=True, pts=((0.3,),), T=900.0, undef=True):
+        cache=True, pts=((0.3,),), T=900.0, undef=True, labfac=1):
     """real computeHomogenizationFunction/_computeSingleMobility/HashTable on a stubbed backend: the average at every
     point is the rule applied to the documented (by-name) post-processing of the backend's rows for that point, and
     evaluating the points again (cache enabled or disabled) gives the same answer"""
@@ -328,7 +336,7 @@ def e2e(ctx, rule="wiener upper", mode="predefined", arg="BETA", db=3, stable=("
     # whether it has one is symbolic -> fork here (dict.get(...) is not None is a Python-level test in the real code)
     therm.mobCallables = {ph: ({} if has_model[ph] else None) for ph in therm.phases}
     ne = len(elements); npts = len(pts)
-    hp = HomogenizationParameters(rule, postProcessFunction=mode, postProcessArgs=arg)
+    hp = HomogenizationParameters(rule, labyrinthFactor=labfac, postProcessFunction=mode, postProcessArgs=arg)
     ht = DP.HashTable()
     ht.enableCaching(cache)
     saved = DP.mobility_from_composition_set
@@ -406,9 +414,9 @@ _A2 = ["rows are the stable phases of the point, a sub-list (any order) of the d
 _perms3 = [list(q) for q in itertools.permutations(range(3))][1:]
 _subsets = lambda db: [list(q) for k in range(1, db + 1) for c in itertools.combinations(DB[:db], k) for q in itertools.permutations(c)]
 
-def _e(rule, mode, arg, stable, elements=("NI", "AL"), cache=True, pts=((0.3,),), undef=True):
+def _e(rule, mode, arg, stable, elements=("NI", "AL"), cache=True, pts=((0.3,),), undef=True, labfac=1):
     return {"rule": rule, "mode": mode, "arg": arg, "stable": list(stable), "elements": list(elements), "cache": cache,
-            "pts": [list(q) for q in pts], "undef": undef}
+            "pts": [list(q) for q in pts], "undef": undef, "labfac": labfac}
 
 
 _SAME2 = ((0.3,), (0.3,)); _DIFF2 = ((0.3,), (0.4,)); _T3 = ((0.3, 0.2),); _T3x3 = ((0.3, 0.2), (0.2, 0.3), (0.3, 0.2))
@@ -427,6 +435,12 @@ _E2E_Q = [
     _e("lab", "majority", None, ["GAMMA"], pts=_DIFF2),
     _e("hashin upper", "majority", None, ["BETA", "ALPHA"], undef=False, cache=False),
     _e("wiener lower", "none", None, ["GAMMA", "BETA"], undef=False, pts=_SAME2),
+    # labyrinth factor != 1, >= 2 stable phases, cache on, the same point twice in one call and in a second call
+    # (factor 2 only: with 1.5 a rule that keeps re-powering the cached fractions nests square roots and z3 hangs;
+    #  the factor 1.5 is covered by C17.lab)
+    _e("lab", "predefined", "BETA", ["BETA", "ALPHA"], pts=_SAME2, labfac=2),
+    _e("lab", "none", None, ["GAMMA", "ALPHA"], pts=_SAME2, labfac=2, cache=True),
+    _e("lab", "majority", None, ["ALPHA", "BETA"], pts=_SAME2, labfac=2, undef=False),
 ]
 _E2E_T = [_e(r, "predefined", a, st, elements=els, cache=c, pts=x)
           for r, c in (("wiener upper", True), ("lab", False))
@@ -436,7 +450,9 @@ _E2E_T = [_e(r, "predefined", a, st, elements=els, cache=c, pts=x)
           for st in (["GAMMA"], ["BETA", "ALPHA"], ["BETA", "GAMMA", "ALPHA"])] + \
          [_e(r, "majority", None, st, pts=x) for r in ("wiener upper",) for st, x in ((["GAMMA"], _DIFF2), (["BETA", "ALPHA"], _DIFF2), (["BETA", "GAMMA", "ALPHA"], ((0.3,),)))] + \
          [_e(r, m, a, st, undef=False) for r in ("wiener lower", "hashin upper", "hashin lower") for m, a in (("predefined", "BETA"), ("majority", None))
-          for st in (["BETA"], ["ALPHA", "BETA"])]
+          for st in (["BETA"], ["ALPHA", "BETA"])] + \
+         [_e("lab", m, a, st, pts=x, labfac=n, elements=els) for m, a in (("predefined", "ALPHA"), ("exclude", ["GAMMA"]), ("none", None))
+          for st, x, els in ((["BETA", "ALPHA"], _SAME2, ("NI", "AL")), (["ALPHA", "GAMMA", "BETA"], _T3x3, ("CR", "AL", "NI"))) for n in (2,)]
 
 HARNESSES = [
     Harness("C17.bounds", bounds, functions=_F1, assumptions=_A1,
